@@ -28,6 +28,8 @@ struct BCase {
 };
 static std::vector<BCase> BCASES;
 static std::string g_bspace;
+static bool g_all_cfgs = true;
+static int g_types_mode = 1;   // 0 never, 1 with full checking on, 2 always
 
 struct DumpItem { std::string text; std::vector<std::string> attrs; bool seen = false; };
 
@@ -62,6 +64,36 @@ static bool attrs_equal(const std::vector<std::string>& exp, const std::vector<s
     std::sort(a.begin(), a.end()); std::sort(b.begin(), b.end());
     return a == b;
 }
+// ---- diagnosed library defects (see docs/c08.md).  A violation that matches one of these predicates carries a "defect" field so that a
+// known-finding entry can be keyed on it; with --known skip such cases are counted (known_defect:<id>) instead of reported, so that
+// the remainder of the space can be explored.  Default is to report them (the check stays strict).
+const char* const KNOWN_DEFECTS[] = {
+    "C08-D1-counter-shared-by-same-name-particles",      // DFAContentModel::buildDFA keys occurrence counters by element name
+    "C08-D2-value-constraint-ignored-for-mixed-content", // SchemaValidator::checkContent: default/fixed never applied/enforced for mixed or anyType content
+    "C08-D3-whitespace-only-content-takes-default",      // SchemaValidator::checkContent: whitespace-only simple content is replaced by the default
+    "C08-D4-fatal-error-for-invalid-value-with-fixed",   // SchemaValidator::checkContent: compare() throws before validate(); surfaces as fatal error
+    "C08-D5-xsi-nil-false-leaks-to-next-element",        // SchemaValidator::validateElement / checkContent: fNilFound not cleared
+    "C08-D6-value-constraint-on-non-emptiable-mixed-accepted",  // TraverseSchema: cos-valid-default.2.2.2 not checked
+};
+bool g_skip_known = false;
+static std::string defect_tag(const std::string& caseDesc, const std::string& kind, const std::string& instance, const std::string& err) {
+    bool mixedish = caseDesc.find("type=mixed-aopt") != std::string::npos || caseDesc.find("type=anytype") != std::string::npos;
+    bool vc = caseDesc.find("vc=none") == std::string::npos;
+    if (err.find("'xsi:nil' specified for non-nillable element") != std::string::npos && kind == "valid-instance-rejected") return KNOWN_DEFECTS[4];
+    if (kind == "fatal-or-exception" && err.find("invalid character encountered") != std::string::npos && caseDesc.find("vc=fixed") != std::string::npos) return KNOWN_DEFECTS[3];
+    if (kind == "invalid-schema-accepted" && caseDesc.find("type=mixed-a ") != std::string::npos) return KNOWN_DEFECTS[5];
+    if (mixedish && vc && (kind == "wrong-element-content" || kind == "invalid-instance-accepted")) return KNOWN_DEFECTS[1];
+    if (kind == "invalid-instance-accepted" && caseDesc.find("vc=default") != std::string::npos && (instance == "<t:e> </t:e>" || instance == "<t:e>&#32;</t:e>")) return KNOWN_DEFECTS[2];
+    return "";
+}
+// returns true if the violation is to be reported; otherwise it has been counted as a skipped known defect
+static bool report_or_skip(Ctx& c, const std::string& tag, std::string& fields) {
+    if (tag.empty()) return true;
+    if (g_skip_known) { c.count("known_defect:" + tag); return false; }
+    fields += ",\"defect\":" + jstr(tag);
+    return true;
+}
+
 static std::string joinv(const std::vector<std::string>& v) { std::string o; for (auto& s : v) { if (!o.empty()) o += " "; o += s; } return o; }
 
 static void run_bcase(uint64_t idx, Ctx& c) {
@@ -77,10 +109,13 @@ static void run_bcase(uint64_t idx, Ctx& c) {
     for (auto& f : bc.files) filesJson += (filesJson.size() > 1 ? "," : "") + jstr(f.first) + ":" + jstr(f.second);
     filesJson += "}";
     for (int sc : {IG, SG}) for (int api : {SAX2, DOM}) for (int full = 1; full >= (bc.fullOff ? 0 : 1); full--) {
+        // quick tier: four of the eight configurations, chosen so that each scanner, API and full-checking value occurs twice
+        if (!g_all_cfgs && ((sc == IG) ^ (api == SAX2) ^ (full != 0)) == 0) continue;
         Config cfg; cfg.api = api; cfg.scanner = sc; cfg.ns = true; cfg.schema = true; cfg.val = 1; cfg.fullcheck = full != 0;
         g_vfs->clear();
         for (auto& f : bc.files) g_vfs->put(f.first, f.second);
-        Parsed P = parse8(cfg, doc, true, true);
+        bool wantTypes = g_types_mode == 2 || (g_types_mode == 1 && full);   // type information is collected with full checking on only (cost)
+        Parsed P = parse8(cfg, doc, true, wantTypes);
         c.count("parses");
         std::string base = "\"case\":" + jstr(bc.desc) + ",\"config\":" + jstr(cfg.str());
         if (c.verbose) {
@@ -89,7 +124,11 @@ static void run_bcase(uint64_t idx, Ctx& c) {
         }
         if (!P.r.exc.empty() || P.r.fatals) {
             if (bc.schemaExpect == 1 || (bc.schemaExpect == 3 && full)) { c.count("schema_rejected_as_expected"); continue; }
-            c.violation("fatal-or-exception", base + ",\"exc\":" + jstr(P.r.exc) + ",\"first\":" + jstr(P.r.errors.empty() ? "" : P.r.errors[0]) + ",\"files\":" + filesJson);
+            std::string ferr; long fline = 0;
+            for (auto& e : P.r.errors) if (e[0] == 'F') { ferr = e; fline = split_err(e).line; break; }
+            std::string finst = (fline >= 2 && (size_t)(fline - 2) < bc.items.size()) ? bc.items[fline - 2].xml : std::string();
+            std::string fields = base + ",\"exc\":" + jstr(P.r.exc) + ",\"error\":" + jstr(ferr) + ",\"instance\":" + jstr(finst) + ",\"files\":" + filesJson;
+            if (report_or_skip(c, defect_tag(bc.desc, "fatal-or-exception", finst, ferr), fields)) c.violation("fatal-or-exception", fields);
             continue;
         }
         size_t schemaErrs = 0; std::string firstSchemaErr, stray;
@@ -109,7 +148,10 @@ static void run_bcase(uint64_t idx, Ctx& c) {
         bool expectErr = bc.schemaExpect == 1 || (bc.schemaExpect == 3 && full);
         if (expectErr) {
             c.count("expect_schema_rejected");
-            if (!schemaErrs) c.violation("invalid-schema-accepted", base + ",\"why\":" + jstr(bc.schemaWhy) + ",\"files\":" + filesJson);
+            if (!schemaErrs) {
+                std::string fields = base + ",\"why\":" + jstr(bc.schemaWhy) + ",\"files\":" + filesJson;
+                if (report_or_skip(c, defect_tag(bc.desc, "invalid-schema-accepted", "", ""), fields)) c.violation("invalid-schema-accepted", fields);
+            }
             else c.count("schema_rejected_as_expected");
             continue;
         }
@@ -122,7 +164,7 @@ static void run_bcase(uint64_t idx, Ctx& c) {
         std::vector<const TypeRec*> itemT, wrapT;
         for (auto& t : P.types) { if (t.depth == 2) itemT.push_back(&t); else if (t.depth == 1) wrapT.push_back(&t); }
         std::vector<DumpItem> di = dump_items(P.r.d.lines, api == DOM);
-        bool aligned = itemT.size() == bc.items.size() && wrapT.size() == bc.items.size() && di.size() == bc.items.size();
+        bool aligned = (!wantTypes || (itemT.size() == bc.items.size() && wrapT.size() == bc.items.size())) && di.size() == bc.items.size();
         if (!aligned) { c.violation("harness-alignment", base + ",\"items\":" + std::to_string(bc.items.size()) + ",\"types\":" + std::to_string(itemT.size()) + ",\"dump\":" + std::to_string(di.size())); continue; }
         int reported = 0;
         for (size_t i = 0; i < bc.items.size(); i++) {
@@ -130,27 +172,32 @@ static void run_bcase(uint64_t idx, Ctx& c) {
             if (it.expect == 2) { c.count("items_noclaim"); continue; }
             std::string ib = base + ",\"instance\":" + jstr(it.xml) + ",\"rule\":" + jstr(it.why);
             c.count("instance_verdicts_compared");
+            if (c.verbose && (bool)got[i] != (it.expect == 1))
+                printf("   MISMATCH %-40s expected %s (%s) observed %s %s\n", it.xml.c_str(), it.expect == 1 ? "invalid" : "valid", it.why.c_str(), got[i] ? "invalid" : "valid", firstErr[i].c_str());
             if ((bool)got[i] != (it.expect == 1)) {
-                if (reported++ < 3) c.violation(it.expect == 1 ? "invalid-instance-accepted" : "valid-instance-rejected", ib + ",\"error\":" + jstr(firstErr[i]) + ",\"files\":" + filesJson);
+                std::string kind = it.expect == 1 ? "invalid-instance-accepted" : "valid-instance-rejected";
+                std::string fields = ib + ",\"error\":" + jstr(firstErr[i]) + ",\"files\":" + filesJson;
+                if (report_or_skip(c, defect_tag(bc.desc, kind, it.xml, firstErr[i]), fields) && reported++ < 8) c.violation(kind, fields);
                 continue;
             }
             if (it.expect == 1) {
+                if (!wantTypes) continue;
                 // informational only: the PSVI [validity] property is not part of the property text (validity is reported through
                 // the error handler); count how often PSVI still says "valid" for an item that was correctly reported invalid
                 c.count(itemT[i]->validity != 1 && wrapT[i]->validity != 1 ? "info_psvi_validity_not_invalid_for_invalid_item" : "info_psvi_validity_invalid_for_invalid_item");
                 continue;
             }
-            c.count("psvi_valid_compared");
-            if (itemT[i]->validity != 2 && reported++ < 3) c.violation("psvi-validity-not-valid", ib + ",\"item\":" + jstr(itemT[i]->str()) + ",\"files\":" + filesJson);
-            if (!it.type.empty()) {
+            if (wantTypes) c.count("psvi_valid_compared");
+            if (wantTypes && itemT[i]->validity != 2 && reported++ < 8) c.violation("psvi-validity-not-valid", ib + ",\"item\":" + jstr(itemT[i]->str()) + ",\"files\":" + filesJson);
+            if (wantTypes && !it.type.empty()) {
                 c.count("type_names_compared");
                 std::string gotType = itemT[i]->tns + "|" + itemT[i]->tname;
                 // SAX2 PSVIElement::getTypeDefinition() is null for the ur-type (the DOM builder documents and applies the convention
                 // "valid without a type definition = xs:anyType"); accept the null only there
                 if (api == SAX2 && it.type == XSDNS + "|anyType" && gotType == "|") { c.count("sax2_psvi_null_type_for_anytype"); gotType = it.type; }
-                if (gotType != it.type && reported++ < 3) c.violation("wrong-type-name", ib + ",\"expected\":" + jstr(it.type) + ",\"observed\":" + jstr(gotType) + ",\"files\":" + filesJson);
+                if (gotType != it.type && reported++ < 8) c.violation("wrong-type-name", ib + ",\"expected\":" + jstr(it.type) + ",\"observed\":" + jstr(gotType) + ",\"files\":" + filesJson);
             }
-            for (auto& at : it.attrTypes) {
+            if (wantTypes) for (auto& at : it.attrTypes) {
                 c.count("attr_type_names_compared");
                 std::vector<std::string> f; size_t p = 0;
                 while (true) { size_t q = at.find('|', p); f.push_back(at.substr(p, q == std::string::npos ? q : q - p)); if (q == std::string::npos) break; p = q + 1; }
@@ -160,15 +207,18 @@ static void run_bcase(uint64_t idx, Ctx& c) {
                     while (true) { size_t q = a.find('|', p2); g.push_back(a.substr(p2, q == std::string::npos ? q : q - p2)); if (q == std::string::npos) break; p2 = q + 1; }
                     if (g.size() >= 4 && g[0] == f[0]) { seen = a; ok = g[2] == f[1] && g[3] == f[2]; }
                 }
-                if (!ok && reported++ < 3) c.violation("wrong-attribute-type", ib + ",\"expected\":" + jstr(at) + ",\"observed\":" + jstr(seen) + ",\"files\":" + filesJson);
+                if (!ok && reported++ < 8) c.violation("wrong-attribute-type", ib + ",\"expected\":" + jstr(at) + ",\"observed\":" + jstr(seen) + ",\"files\":" + filesJson);
             }
             if (it.claimText) {
                 c.count("element_text_compared");
-                if (di[i].text != it.text && reported++ < 3) c.violation("wrong-element-content", ib + ",\"expected\":" + jstr(it.text) + ",\"observed\":" + jstr(di[i].text) + ",\"files\":" + filesJson);
+                if (di[i].text != it.text) {
+                    std::string fields = ib + ",\"expected\":" + jstr(it.text) + ",\"observed\":" + jstr(di[i].text) + ",\"files\":" + filesJson;
+                    if (report_or_skip(c, defect_tag(bc.desc, "wrong-element-content", it.xml, ""), fields) && reported++ < 8) c.violation("wrong-element-content", fields);
+                }
             }
             if (it.claimAttrs) {
                 c.count("attribute_lists_compared");
-                if (!attrs_equal(it.attrs, di[i].attrs, api == DOM) && reported++ < 3)
+                if (!attrs_equal(it.attrs, di[i].attrs, api == DOM) && reported++ < 8)
                     c.violation("wrong-attribute-list", ib + ",\"expected\":" + jstr(joinv(it.attrs)) + ",\"observed\":" + jstr(joinv(di[i].attrs)) + ",\"files\":" + filesJson);
             }
         }
@@ -424,7 +474,9 @@ static void build_types(const std::string& tier) {
         s += "</xs:schema>\n";
         bc.files["/v/s.xsd"] = s;
         unsigned eBlock = block_set(eb), tBlock = block_set(tb) & 3;
-        for (const char* el : {"e", "m"}) for (auto& xt : XSITYPES) for (int nil = 0; nil < 3; nil++) for (auto& ct : CONTENTS) {
+        // xsi:nil="false" items last: see defect C08-D5 (the flag leaks into the following start tag), so that the leak cannot
+        // disturb the verdicts of the other two thirds of the batch
+        for (int nil = 0; nil < 3; nil++) for (const char* el : {"e", "m"}) for (auto& xt : XSITYPES) for (auto& ct : CONTENTS) {
             Item it;
             std::string xml = std::string("<t:") + el;
             if (!xt.empty()) xml += " xsi:type=\"t:" + xt + "\"";
@@ -625,6 +677,9 @@ static bool setup_space(const std::string& space, const std::string& tier, const
     else if (space == "assembly") build_assembly(tier);
     else return false;
     g_bspace = space;
+    g_types_mode = (int)a.num("types", 1);
+    g_all_cfgs = a.num("allcfgs", tier == "thorough" ? 1 : 0) != 0;
+    g_skip_known = a.str("known", "report") == "skip";
     size_t items = 0;
     for (auto& b : BCASES) items += b.items.size();
     R.total = BCASES.size();
